@@ -363,6 +363,144 @@ func edgeFact(b *ssa.BasicBlock, i int) (text string, truth bool, ok bool) {
 	return t, truth, true
 }
 
+// edgeEstablishes reports whether crossing the edge b -> b.Succs[i] establishes the fact (a condition whose text
+// matches, with the given truth): directly, or because the edge's condition is a call of a boolean helper of the
+// module that can only return that value when the fact holds inside it (one refactoring step: a guard extracted
+// into a predicate method such as `func (p *particle) isEmpty() bool`).
+func edgeEstablishes(b *ssa.BasicBlock, i int, match func(string) bool, truth bool) bool {
+	return edgeEstablishesD(b, i, match, truth, 0)
+}
+
+func edgeEstablishesD(b *ssa.BasicBlock, i int, match func(string) bool, truth bool, depth int) bool {
+	t, tr, ok := edgeFact(b, i)
+	if !ok {
+		return false
+	}
+	if match(t) && tr == truth {
+		return true
+	}
+	ifi, isIf := b.Instrs[len(b.Instrs)-1].(*ssa.If)
+	if !isIf {
+		return false
+	}
+	v, neg := stripNot(ifi.Cond)
+	return helperImplies(v, (i == 0) != neg, match, truth, depth)
+}
+
+func stripNot(v ssa.Value) (ssa.Value, bool) {
+	neg := false
+	for {
+		if u, ok := v.(*ssa.UnOp); ok && u.Op == token.NOT {
+			neg = !neg
+			v = u.X
+			continue
+		}
+		return v, neg
+	}
+}
+
+// helperImplies: v is the result of a call of a module function returning one bool; does v == p imply the fact?
+func helperImplies(v ssa.Value, p bool, match func(string) bool, truth bool, depth int) bool {
+	if depth > 2 {
+		return false
+	}
+	call, ok := v.(*ssa.Call)
+	if !ok {
+		return false
+	}
+	g := call.Common().StaticCallee()
+	if g == nil || len(g.Blocks) == 0 || !inModule(g) {
+		return false
+	}
+	res := g.Signature.Results()
+	if res.Len() != 1 {
+		return false
+	}
+	if bt, ok := res.At(0).Type().Underlying().(*types.Basic); !ok || bt.Kind() != types.Bool {
+		return false
+	}
+	return retImplies(g, p, match, truth, depth+1)
+}
+
+// retImplies: on every acyclic path of g that does not cross an edge establishing the fact, the returned value
+// cannot be p (constants are resolved through phi nodes along the path; a returned condition counts as its own fact).
+func retImplies(g *ssa.Function, p bool, match func(string) bool, truth bool, depth int) bool {
+	budget := 20000
+	okAll := true
+	var path []*ssa.BasicBlock
+	onPath := map[*ssa.BasicBlock]bool{}
+	var resolve func(v ssa.Value, upto int) ssa.Value
+	resolve = func(v ssa.Value, upto int) ssa.Value {
+		ph, isPhi := v.(*ssa.Phi)
+		if !isPhi {
+			return v
+		}
+		for k := upto; k >= 1; k-- {
+			if path[k] == ph.Block() {
+				for ei, pred := range ph.Block().Preds {
+					if pred == path[k-1] {
+						return resolve(ph.Edges[ei], k-1)
+					}
+				}
+			}
+		}
+		return v
+	}
+	var dfs func(b *ssa.BasicBlock)
+	dfs = func(b *ssa.BasicBlock) {
+		if !okAll {
+			return
+		}
+		budget--
+		if budget < 0 {
+			okAll = false
+			return
+		}
+		path = append(path, b)
+		onPath[b] = true
+		defer func() { path = path[:len(path)-1]; onPath[b] = false }()
+		if r, isRet := b.Instrs[len(b.Instrs)-1].(*ssa.Return); isRet {
+			if len(r.Results) != 1 {
+				okAll = false
+				return
+			}
+			leaf := resolve(r.Results[0], len(path)-1)
+			if k, isK := leaf.(*ssa.Const); isK && k.Value != nil {
+				if (k.Value.ExactString() == "true") == p {
+					okAll = false
+				}
+				return
+			}
+			if _, isPhi := leaf.(*ssa.Phi); isPhi {
+				okAll = false
+				return
+			}
+			inner, neg := stripNot(leaf)
+			t, n2 := normCond(inner)
+			holds := (p != neg) != n2 // truth of the text when the returned value equals p
+			if match(t) && holds == truth {
+				return
+			}
+			if helperImplies(inner, p != neg, match, truth, depth) {
+				return
+			}
+			okAll = false
+			return
+		}
+		for si, s := range b.Succs {
+			if onPath[s] {
+				continue
+			}
+			if edgeEstablishesD(b, si, match, truth, depth) {
+				continue
+			}
+			dfs(s)
+		}
+	}
+	dfs(g.Blocks[0])
+	return okAll
+}
+
 // Assume is a path fact: edges on which cond text matches and truth differs are pruned.
 type Assume struct {
 	Match func(text string) bool
@@ -516,8 +654,7 @@ func dominatedByFact(ins ssa.Instruction, text func(string) bool, truth bool) bo
 	found := false
 	q := &PathQuery{Fn: fn, Target: func(x ssa.Instruction) bool { return x == ins },
 		EdgeOK: func(b *ssa.BasicBlock, i int) bool {
-			t, tr, ok := edgeFact(b, i)
-			if ok && text(t) && tr == truth {
+			if edgeEstablishes(b, i, text, truth) {
 				found = true
 				return false
 			}
@@ -532,8 +669,7 @@ func dominatedByFact(ins ssa.Instruction, text func(string) bool, truth bool) bo
 func reguarded(ins ssa.Instruction, text func(string) bool, truth bool) bool {
 	q := &PathQuery{Fn: ins.Parent(), From: ins, Target: func(x ssa.Instruction) bool { return x == ins },
 		EdgeOK: func(b *ssa.BasicBlock, i int) bool {
-			t, tr, ok := edgeFact(b, i)
-			return !(ok && text(t) && tr == truth)
+			return !edgeEstablishes(b, i, text, truth)
 		}}
 	_, hit := q.Find()
 	return hit == nil
